@@ -461,3 +461,94 @@ try:
     body_deferring_inner(1, 1, 2)
 except Exception:
     pass
+
+
+# ------------------------------------------------------------------ one handler function used at two tiers
+
+def h_shared(ty, args, *, handlers):
+    """the SAME function object is the class-level custom= of an enclosing dataclass and a call-level custom="""
+    return MC(7) if ty is int else NotImplemented
+
+
+class TInner(PaneBase, custom={int: MC(3)}):
+    n: int = 0
+
+
+class TOuter(PaneBase, custom=h_shared):
+    inner: TInner
+    w: int = 0
+
+
+@obligation(pre="0 <= order <= 1", witnesses=(0,), timeout=240)
+def body_handler_tiers(order: int, i: int, j: int) -> int:
+    """a handler set is (call-level, class-level) -- not a flat sequence: converting TOuter (h_shared as enclosing class handler) and TInner with custom=h_shared (call level) gives the same results in either order"""
+    old_cache = make_converter.cache
+    make_converter.cache = dict(make_converter.cache)
+    try:
+        for step in ((0, 1) if order == 0 else (1, 0)):
+            if step == 0:
+                r = TOuter.from_data({'inner': {'n': i}, 'w': j})
+                # inner int: TInner's own class handler (3) beats the enclosing class's (7); outer int: its own class handler (7)
+                if not eqv(r.inner.n, ('in', 3, i)) or not eqv(r.w, ('in', 7, j)):
+                    return 2
+            else:
+                r = TInner.from_data({'n': i}, custom=h_shared)
+                # call-level handler (7) beats TInner's class handler (3)
+                if not eqv(r.n, ('in', 7, i)):
+                    return 2
+        return 0
+    finally:
+        make_converter.cache = old_cache
+
+
+try:
+    body_handler_tiers(0, 1, 2)
+    body_handler_tiers(1, 1, 2)
+except Exception:
+    pass
+
+
+class GBox(list):
+    """a third-party container whose converter comes from a registered global handler that builds its member converter from
+    the handlers it is GIVEN (as the numpy add-on does)"""
+
+
+def _gbox_handler(ty, args, *, handlers):
+    if ty is GBox:
+        from pane.converters import SequenceConverter
+        return SequenceConverter(GBox, int, handlers=handlers)
+    return NotImplemented
+
+
+register_converter_handler(_gbox_handler)
+
+
+class GHolder(PaneBase, custom={int: MC(5)}):
+    box: GBox = field(default_factory=GBox)
+    n: int = 0
+
+
+@obligation(pre="0 <= csel <= 4", witnesses=(0,), timeout=240)
+def body_global_handler_reach(csel: int, x: int, n: int) -> int:
+    """custom converters reach INSIDE a type whose converter is supplied by a registered global handler (call-level and enclosing-class handlers alike)"""
+    call = csel in (1, 2, 3, 4)
+    try:
+        r = make_converter(GBox, HANDLERS[csel]).convert([x])
+        h = make_converter(GHolder, HANDLERS[csel]).convert({'box': [x], 'n': n})
+    except Exception as ex:
+        if crosshair_exc(ex):
+            raise
+        return 10
+    if not eqv(list(r), [mark_in(2 if call else 0, x)]):
+        return 1
+    k = 2 if call else 5
+    if not eqv(list(h.box), [mark_in(k, x)]) or not eqv(h.n, mark_in(k, n)):
+        return 1
+    return 0
+
+
+for _c in range(5):
+    try:
+        body_global_handler_reach(_c, 1, 2)
+    except Exception:
+        pass
